@@ -110,6 +110,25 @@ def callers(F, target_path):
     return list(idx.get(target_path, []))
 
 
+def flag_sites(F, fpath, pname, depth=0):
+    """[(caller fn, call bb, argument)] of the values parameter `pname` of function fpath receives; a caller that merely
+    passes its own parameter on (`fn mk(&self, done: bool, ..)` called as `self.mk(done, ..)`) is looked through"""
+    g = F.fn(fpath)
+    params = [v['n'] for v in g.raw['vars'] if 'arg' in v]
+    if pname not in params:
+        return []
+    pi = params.index(pname)
+    out = []
+    for f, bb in callers(F, fpath):
+        args = f.expr_call(bb)[2]
+        arg = args[pi] if pi < len(args) else None
+        if arg is not None and mirq.const_of(arg) is None and depth < 2 and arg[0] == 'var' and is_param(f, arg):
+            out += flag_sites(F, F.owner_fn(f).path, arg[1], depth + 1)
+        else:
+            out.append((f, bb, arg))
+    return out
+
+
 def ctor_sites(F, target_path):
     """[(fn, call bb, argument expressions)] of the places a constructor is used: its direct call sites, and - for a call made
     inside a small forwarding helper (`fn mk(&self, a, b) -> T { T::new(a, self.x, b, ..) }`) - the helper's call sites with the
@@ -606,6 +625,20 @@ class Audit:
             # built-in slice indexing checks `idx < len(base)`: the same construct as Index::index(base, idx) on a Vec
             base = ops[0][1] if ops[0][0] == 'len' else ops[0][2][0]
             keys.append(self._akey(self.key(f, 'index', [base] + list(ops[1:]))))
+        if kind == 'panic':
+            # `match q.front_mut() { Some(x) => .., None => unreachable!() }` is `q[0]` with the miss written out: the same
+            # construct as the indexing the table may already justify
+            for sb in f.switches():
+                ce = f.cond(sb)[0]
+                if ce[0] == 'discr' and ce[1][0] == 'call' and ce[1][4].get('name') in ('front', 'front_mut', 'first', 'first_mut', 'get', 'get_mut'):
+                    try:
+                        ve = f.variant_edges(sb)
+                    except Exception:
+                        continue
+                    if 'None' in ve and (bb == ve['None'] or bb in f.only_via_edge((sb, ve['None']))):
+                        base = mirq.strip(ce[1][2][0])
+                        idx = ce[1][2][1] if len(ce[1][2]) > 1 else ('const', 0, None, 'usize')
+                        keys.append(self._akey(self.key(f, 'index', [base, idx])))
         for key in keys:
             for ak, reason in self.allow.items():
                 if key.startswith(ak):
